@@ -69,3 +69,35 @@ def run(ctx):
     ctx.require_obs("bq_scenarios", "bq_put_found_full", "bq_take_found_empty", "bq_items_left_at_close",
                     "bq_refused_after_close", "ring_items", "ring_full_seen", "ring_empty_seen", "ring_resizes",
                     "condvar_prepark_delays", "bq_burst_consumers_parked", "bq_burst_producers_parked")
+
+
+def replay(ctx, path):
+    """Re-run the blocking-queue scenario or ring case a replay file names (repeated: the interleaving itself
+    is not replayable), else the whole tier with the recorded seed."""
+    import json
+    with open(path) as fh:
+        rp = json.load(fh)
+    d = (rp.get("first") or {}).get("detail") or {}
+    if not isinstance(d, dict) or ("scenario" not in d and "idx" not in d):
+        ctx.seed, ctx.tier = rp.get("seed", ctx.seed), rp.get("tier", ctx.tier)
+        return run(ctx)
+    seed = d.get("seed", rp.get("seed", ctx.seed))
+    bins = vf.build_many([("c10_queue", f) for f in ("plain", "tsan")])
+    jobs = []
+    for fl, reps in (("plain", 24), ("tsan", 8)):
+        b = bins[("c10_queue", fl)]
+        for rep in range(reps):
+            if "scenario" in d:
+                jobs.append(lambda b=b, rep=rep: _bq_worker(ctx, b, seed, int(d["scenario"]) + 0, 1, 600) if rep >= 0 else None)
+            else:
+                def ring(b=b, rep=rep):
+                    out = os.path.join(ctx.tmp, f"rring-{vf.flavor_of(b)}-{rep}.jsonl")
+                    return [vf.run_harness(b, ["--mode", "ring", "--seed", seed, "--from", int(d["idx"]), "--count", 1,
+                                               "--items", 400000 // (1 if vf.flavor_of(b) == "plain" else 8), "--out", out], timeout=900, out_file=out)]
+                jobs.append(ring)
+    for rrs in vf.run_many(ctx, jobs, workers=1 if "scenario" in d else None):
+        for rr in rrs:
+            ctx.ingest(rr, where=f"(replay, {rr.flavor})")
+            if getattr(rr, "bad", None):
+                ctx.inconcl(rr.bad)
+    ctx.rule = f"replay of {'scenario ' + str(d.get('scenario')) if 'scenario' in d else 'ring case ' + str(d.get('idx'))} seed {seed} (24 plain + 8 tsan runs)"
